@@ -3,9 +3,9 @@ from .base import *
 from . import _timed as TM
 
 RULE = ("pool: random client histories as for C12 plus long strictly sequential request/done chains (up to 40 requests) with and "
-        "without reaper ticks and session deaths in between; poolreal: sequential requests over loopback TLS counting accepted "
+        "without reaper ticks and session deaths in between; bursts of 2-4 overlapping requests (gated dials, all completing) followed by 2-5 sequential ones; poolreal: a burst of 3 then 3 sequential requests, and sequential requests over loopback TLS counting accepted "
         "connections. Non-trivial = at least 2 requests; distinct by sha256 of the case.")
-SIDE_LEMMAS = 2      # GeneratedFacts: client_glue_shape, pool_shape
+SIDE_LEMMAS = 3      # Gen/FactsTimed.v: client_glue_shape, pool_shape, client_seq_before_add
 ASSUMPTIONS = ["`non-overlapping` is decided on the history: a request is non-overlapping when every earlier request's stream has been completed",
                "the model is tied to client.rs / session_pool.rs by differential execution on the cases counted below (sampling)"]
 Case = Case
@@ -51,6 +51,10 @@ def gen_cases(tier, seed):
     for i in range(n):
         a = gen_seq_chain(r)
         cs.append(Case("s%d" % i, "pool", a, "sequential-chain", True))
+    n = 40 if tier == "quick" else 500
+    for i in range(n):
+        a = TM.gen_burst_then_seq(r)
+        cs.append(Case("bs%d" % i, "pool", a, "burst-then-sequential", True))
     return cs
 
 
